@@ -146,10 +146,11 @@ struct Ctx {
   void probe(const char* name, u64 n = 1) { st.probes[name] += n; }
   void fault(const char* name) { st.faults[name] += 1; nontrivial = true; }
   void check() { st.checks++; }
-  [[noreturn]] void fail(const std::string& fingerprint, const std::string& detail) { throw Violation{fingerprint, detail}; }
+  std::string fp_suffix;   // appended to every oracle fingerprint of this run (a run that carries a forced 2^-53 draw says so: "|+extreme_draw")
+  [[noreturn]] void fail(const std::string& fingerprint, const std::string& detail) { throw Violation{fingerprint + fp_suffix, detail}; }
   void require(bool ok, const char* fingerprint, const std::string& detail = std::string()) {
     st.checks++;
-    if (!ok) throw Violation{fingerprint, detail};
+    if (!ok) throw Violation{std::string(fingerprint) + fp_suffix, detail};
   }
   void begin_step(int idx, int kind) {
     cur_step = idx; cur_kind = kind; st.steps++;
